@@ -65,6 +65,13 @@ decl_sfrag!(Probe, Probe2);
 #[derive(AgentSet)]
 pub struct SOne { only: Probe2 }
 
+// two structs with the SAME NAME and the same number of fields in different modules, declared in different orders (a derive that remembers anything about an
+// earlier expansion - by name, by arity - gets the second one wrong), for each derive and across the two derives
+pub mod first { use super::*; #[derive(AgentSet)] pub struct Twin { pub a: Probe, pub b: Probe2, pub c: Probe } }
+pub mod second { use super::*; #[derive(AgentSet)] pub struct Twin { pub c: Probe, pub a: Probe, pub b: Probe2 } }
+pub mod third { use super::*; #[derive(MarketAgentSet)] pub struct Twin { pub b: MProbe2, pub c: MProbe, pub a: MProbe } }
+pub mod fourth { use super::*; #[derive(MarketAgentSet)] pub struct Twin { pub a: MProbe, pub c: MProbe, pub b: MProbe2 } }
+
 // ---- multi-asset shapes -----------------------------------------------------------------------------------------------
 #[derive(MarketAgentSet)]
 pub struct MPair { zulu: MProbe, alpha: MProbe }
@@ -140,6 +147,10 @@ pub fn derive_twin(seed: u64) -> (usize, Vec<String>) {
     run_single("SOdd", &mut SOdd { p0: Probe(1), p1: Probe(2), p2: Probe(3), p3: Probe2(4), p4: Probe2(5) }, &[(1, false), (2, false), (3, false), (4, true), (5, true)], s, &mut bad);
     run_single("SFrag", &mut SFrag { g0: Probe(1), g1: Probe(2), g2: Probe2(3), g3: Probe(4) }, &[(1, false), (2, false), (3, true), (4, false)], s, &mut bad);
     run_single("SOne", &mut SOne { only: Probe2(1) }, &[(1, true)], s, &mut bad);
+    run_single("first::Twin", &mut first::Twin { a: Probe(1), b: Probe2(2), c: Probe(3) }, &[(1, false), (2, true), (3, false)], s, &mut bad);
+    run_single("second::Twin", &mut second::Twin { c: Probe(3), a: Probe(1), b: Probe2(2) }, &[(3, false), (1, false), (2, true)], s, &mut bad);
+    run_market("third::Twin", &mut third::Twin { b: MProbe2(2), c: MProbe(3), a: MProbe(1) }, &[(2, true), (3, false), (1, false)], s, &mut bad);
+    run_market("fourth::Twin", &mut fourth::Twin { a: MProbe(1), c: MProbe(3), b: MProbe2(2) }, &[(1, false), (3, false), (2, true)], s, &mut bad);
     run_market("MPair", &mut MPair { zulu: MProbe(1), alpha: MProbe(2) }, &[(1, false), (2, false)], s, &mut bad);
     run_market("MAba", &mut MAba { m: MProbe(1), k: MProbe2(2), b: MProbe(3) }, &[(1, false), (2, true), (3, false)], s, &mut bad);
     run_market("MRuns", &mut MRuns { a: MProbe(1), b: MProbe(2), c: MProbe2(3), d: MProbe(4), e: MProbe(5), f: MProbe(6) }, &[(1, false), (2, false), (3, true), (4, false), (5, false), (6, false)], s, &mut bad);
@@ -147,5 +158,5 @@ pub fn derive_twin(seed: u64) -> (usize, Vec<String>) {
                &[(1, false), (2, false), (3, false), (4, false), (5, true), (6, false), (7, true)], s, &mut bad);
     run_market("MOdd", &mut MOdd { p0: MProbe(1), p1: MProbe(2), p2: MProbe(3), p3: MProbe2(4), p4: MProbe2(5) }, &[(1, false), (2, false), (3, false), (4, true), (5, true)], s, &mut bad);
     run_market("MFrag", &mut MFrag { g0: MProbe(1), g1: MProbe(2), g2: MProbe2(3), g3: MProbe(4) }, &[(1, false), (2, false), (3, true), (4, false)], s, &mut bad);
-    (13, bad)
+    (17, bad)
 }
